@@ -78,9 +78,10 @@ def txt(n):
         return txt(n[1]) + " -> " + txt(n[2])
     if n[0] == "assign":
         return "@" + n[1] + ("." + n[2] if n[2] else "") + "".join("." + q for q in n[3]) + " = " + txt(n[4])
-    if n[0] == "hdr" and len(n) > 2 and n[2]:
-        base = f'#"{n[1]}"' if " " in n[1] else "#" + n[1]
-        return base + "".join("." + q for q in n[2])
+    if n[0] == "hdr":
+        quals = n[2] if len(n) > 2 and n[2] else []
+        base = f'#"{n[1]}"' if (" " in n[1] or "." in n[1]) else "#" + n[1]
+        return base + "".join("." + q for q in quals)
     return lang.txt(n)
 
 
@@ -195,7 +196,7 @@ def gen_leaf(r):
     k = r.random()
     if k < 0.35:
         quals = [] if r.random() < 0.8 else [r.choice(["asbool", "nocontrib", "notnone"])]
-        return ("hdr", r.choice(["a", "b", "c", "0", "2", "last name", "zip.code" if False else "zip_code", "Col-1"]), quals)
+        return ("hdr", r.choice(["a", "b", "c", "0", "2", "last name", "zip_code", "Col-1", "unit.price", "v1.2 total"]), quals)
     if k < 0.6:
         return ("var", r.choice(["v", "x1", "my_var", "cnt"]), r.choice([None, None, "k", "asbool"]))
     if k < 0.9:
@@ -209,7 +210,7 @@ def fill(r, shape_item, d, table):
     if k == "fn" or (d > 0 and k in ("hdr", "var") and r.random() < 0.35):
         return gen_fn(r, d - 1, table, value_like=(k != "fn"))
     if k == "hdr":
-        return ("hdr", r.choice(["a", "b", "c", "1", "last name", "Col-1"]), [])
+        return ("hdr", r.choice(["a", "b", "c", "1", "last name", "Col-1", "unit.price"]), [])
     if k == "var":
         return ("var", r.choice(["v", "x1", "cnt"]), r.choice([None, "k"]))
     if k == "int":
@@ -265,7 +266,7 @@ def gen_component(r, table):
 
 def gen_leaf_left(r):
     if r.random() < 0.6:
-        return ("hdr", r.choice(["a", "b", "c", "0", "last name", "Col-1"]), [])
+        return ("hdr", r.choice(["a", "b", "c", "0", "last name", "Col-1", "unit.price", "is.asbool"]), [])
     return ("var", r.choice(["v", "x1", "cnt"]), r.choice([None, "k"]))
 
 
